@@ -96,6 +96,7 @@ type reqState struct {
 	preEntered      int
 	ctxCancelled    bool // abort path: handler saw its context cancelled
 	ctxTimeout      bool // abort path: bounded wait expired
+	chain           []chainObs // transient controllers seen by the chained Handle wrappers in front of the ctrl route
 	unwindOpen      []string // scopes of this request found open / with unclosed instances when the request left the chain
 	unwindChecked   int
 
@@ -110,6 +111,12 @@ type reqState struct {
 
 func (st *reqState) signalEntered() { st.enterO.Do(func() { close(st.entered) }) }
 func (st *reqState) signalDone()    { st.doneO.Do(func() { close(st.done) }) }
+
+type chainObs struct {
+	id    int64
+	scope godi.Scope
+	svc   int64
+}
 
 // caseState is everything shared by the requests of one case.
 type caseState struct {
